@@ -39,7 +39,7 @@ theorem C01_one_object (sc : Scen) (wf : WF sc) (h : (final sc).status = .done) 
 theorem C01_one_object_everywhere (sc : Scen) (wf : WF sc) (n : Nat) :
     ∀ k i k' i' o o', o ∈ (run sc n (init sc)).fields k i → o' ∈ (run sc n (init sc)).fields k' i' →
       o.name = o'.name → o = o' :=
-  (inv_run sc wf n).one_ver
+  fun k i k' i' o o' => (inv_run sc wf n).one_ver k i o k' i' o'
 
 /-
   Full statement asked for:
@@ -71,8 +71,9 @@ theorem C01_raw (sc : Scen) (wf : WF sc) (ns : ∀ n, sc.earlyO n = raw n ∧ sc
   have hi : Inv sc (final sc) := inv_run sc wf (fuelBound sc)
   rcases hi.l1_src o.name o (C01_identity sc wf h k i o ho) with h1 | h1
   · exact h1.trans (ns o.name).1
-  · rw [h1]; unfold initResult; split
-    · rw [(ns o.name).2]
+  · refine h1.trans ?_
+    unfold initResult; split
+    · exact (ns o.name).2
     · rfl
 
 /-! ### non-vacuity -/
@@ -104,14 +105,23 @@ example : ∀ k i o, o ∈ (final cyc).fields k i → (final cyc).l1 o.name = so
 example : ∀ k i o, o ∈ (final cyc).fields k i → o = raw o.name :=
   C01_raw cyc cyc_wf (fun _ => ⟨rfl, rfl⟩) (by decide)
 
-/-- the same cycle with 1 substituted after initialization, created through 2 first: still one object per name -/
-def cycSub : Scen := { cyc with eager := [2, 0, 1, 3, 4], afterO := fun n => if n = 2 then ⟨2, 9⟩ else raw n }
-example : WF cycSub := ⟨fun _ => rfl, fun n => by simp only [cycSub]; split <;> simp_all [raw]⟩
-example : (final cycSub).status = .done ∧ (final cycSub).fields 1 0 = [⟨2, 9⟩] ∧ (final cycSub).l1 2 = some ⟨2, 9⟩ := by
+/-- the same cycle created through 2 first, with an early substitute for 2 (InitializeComponent returns the raw instance
+    later) and 4 substituted after initialization: still one object per name -/
+def cycSub : Scen :=
+  { cyc with eager := [2, 0, 1, 3, 4], earlyO := fun n => if n = 2 then ⟨2, 9⟩ else raw n,
+             afterO := fun n => if n = 4 then ⟨4, 5⟩ else raw n }
+theorem cycSub_wf : WF cycSub :=
+  ⟨fun n => by simp only [cycSub]; split <;> simp_all [raw], fun n => by simp only [cycSub]; split <;> simp_all [raw]⟩
+example : (final cycSub).status = .done ∧ (final cycSub).fields 1 0 = [⟨2, 9⟩] ∧ (final cycSub).l1 2 = some ⟨2, 9⟩ ∧
+    (final cycSub).fields 1 1 = [⟨4, 5⟩] ∧ (final cycSub).fields 3 0 = [⟨4, 5⟩] := by
   decide
 
 /-- a published name looked up later -/
-example : (match lookup cyc (final cyc) 3 with | .hit o _ => o = raw 3 | _ => False) := by decide
+example : (match lookup cyc (final cyc) 3 with
+    | .hit o' st' => o' = raw 3 ∧ st'.l1 = (final cyc).l1 ∧ st'.l2 = (final cyc).l2 ∧ st'.l3 = (final cyc).l3 ∧
+        st'.stack = (final cyc).stack ∧ st'.fields = (final cyc).fields
+    | _ => False) :=
+  C01_lookup_after_start cyc (final cyc) 3 (raw 3) (by decide)
 
 /-- 0 {1, 2}, 1 {0}, Init of 2 fails: 1 was published holding the early reference of 0, then 0 is abandoned -/
 def dangling : Scen := mk [0, 1, 2]
